@@ -28,7 +28,10 @@ CONFIG = {
              "extend/+=/+ with TreeList, slice, plain-list and self sources (self-extension under a deterministic step "
              "budget), [i]=, [i:j]=, read(newick/nexus text, with/without collection/tree offsets), new_tree, "
              "migrate_taxon_namespace, taxon_namespace assignment + reconstruct_taxon_namespace, reconstruct/update in "
-             "place, pop/remove/del), TreeArray (add_tree, read, from_tree_list), DataSet (add, read newick/nexus with "
+             "place, pop/remove/del), TreeArray (several arrays: add_tree, read, from_tree_list, update/extend/+=/+ with "
+             "same-namespace and foreign-namespace operands, empty and non-empty receivers; every touched array is "
+             "verified through restore_tree(i): namespace, membership of leaf taxa, topology restricted to the added "
+             "tree's taxa), DataSet (add, read newick/nexus with "
              "TAXA/CHARACTERS/TREES blocks, new_tree_list, new_char_matrix, attach/detach, unify_taxon_namespaces) and "
              "CharacterMatrix (new_sequence, [key]=, migrate/reconstruct, add/replace/update/extend_sequences, "
              "extend_matrix, copy constructor into a foreign namespace) plus loose-tree migrate/clone; all objects use "
@@ -44,6 +47,10 @@ CONFIG = {
                     "for TreeArray.add_tree / matrix bulk operations / new_tree, foreign taxon for new_sequence and [key]=, "
                     "two rows colliding on one taxon) are expected as exactly that error",
                     "trees are members of at most one tracked list (plain-list sources hold loose trees only)",
+                    "trees given to a TreeArray have >= 2 leaves with pairwise distinct taxa and undefined rooting; "
+                    "TreeArray.update() is only called with same-namespace operands (nothing is documented for foreign "
+                    "ones; clean code merges them silently), extend/+=/+ must refuse a non-empty foreign array with "
+                    "AssertionError or TaxonNamespaceIdentityError",
                     "text sources contain each leaf label at most once per tree under the namespace's case rule (the "
                     "readers refuse duplicates) and NEXUS TAXA blocks are only read through DataSet.read",
                     "in a namespace that already holds >= 2 taxa with the same label (after 'add' / unify off) any of "
@@ -143,9 +150,11 @@ RULES = {
     "tl_reconstruct": fd(tl=I, unify=B),
     "tl_update": fd(tl=I),
     "tl_remove": fd(tl=I, i=I, j=I, how=st.sampled_from(["pop", "remove", "del", "delslice"])),
-    "ta_add": fd(tl=I, i=I, loose=st.sampled_from([False, False, True]), t=I),
-    "ta_read": fd(doc=DOC),
-    "ta_rebuild": fd(tl=I),
+    "ta_add": fd(ta=I, tl=I, i=I, loose=st.sampled_from([False, False, True]), t=I),
+    "ta_read": fd(ta=I, doc=DOC),
+    "ta_rebuild": fd(ta=I, tl=I),
+    "ta_new": fd(ns=NSSEL),
+    "ta_merge": fd(a=I, b=I, how=st.sampled_from(["update", "extend", "iadd", "add"]), same=B, doc=DOC, ns=st.integers(0, 2)),
     "ds_add": fd(kind=st.sampled_from(["tlist", "matrix"]), k=I),
     "ds_read": fd(doc=DOC, nsmode=st.sampled_from(["none", "none", "pass", "wrong"]), ns=NSSEL),
     "ds_new_tlist": fd(variant=st.sampled_from(["empty", "clone", "list", "foreign_kw"]), s=I, n=st.integers(1, 2), ns=NSSEL,
@@ -190,6 +199,12 @@ class LRec(object):
     def __init__(self, tl, ns, members, born):
         self.tl, self.ns, self.members, self.born = tl, ns, members, born
         self.modified = born
+
+
+class ARec(object):
+    """TreeArray: namespace + per accessioned tree (ids of its leaf taxa, its non-trivial unrooted splits over them)."""
+    def __init__(self, ta, ns, trees=None):
+        self.ta, self.ns, self.trees = ta, ns, list(trees or [])
 
 
 class MRec(object):
@@ -291,9 +306,7 @@ class Interp(object):
             self.ds_nss.append(fresh)
             self.ds_unified = True
         # tree array over the main list's namespace
-        self.ta = d.TreeArray(taxon_namespace=ns)
-        self.ta_ns = ns
-        self.ta_len = 0
+        self.tas = [ARec(d.TreeArray(taxon_namespace=ns), ns)]
         for mk in init["loose"]:
             self.op_mk_tree(mk)
         self.opname = "init"
@@ -618,7 +631,9 @@ class Interp(object):
         comps = self.ds_lists + self.ds_mats
         if self.ds_attached is not None and comps and all(r.ns is self.ds_attached for r in comps):
             self.ctx.cls("dataset_attached_and_all_components_inside_steps")
-        V(self.ta.taxon_namespace is self.ta_ns and len(self.ta) == self.ta_len, "tree_array_state")
+        for k, A in enumerate(self.tas):
+            V(A.ta.taxon_namespace is A.ns and len(A.ta) == len(A.trees), "tree_array_state",
+              lambda: "tree array %d: %d trees, model %d" % (k, len(A.ta), len(A.trees)))
 
     # -- one step ------------------------------------------------------------------------
     def step(self, op, a):
@@ -1090,7 +1105,70 @@ class Interp(object):
         L.modified = self.stepno
 
     # -- TreeArray ---------------------------------------------------------------------------------
+    def pick_ta(self, k):
+        k = k % (len(self.tas) + 1)
+        return self.tas[k] if k < len(self.tas) else self.tas[0]
+
+    def topology(self, tree, restrict=None):
+        """-> (frozenset of leaf taxon ids, frozenset of non-trivial unrooted splits {side, other side} over them), by an
+        own recursion over child nodes; `restrict` = ids of the leaf taxa the comparison is limited to."""
+        clusters = []
+
+        def rec(nd):
+            ch = list(nd.child_node_iter())
+            if not ch:
+                return frozenset([id(nd.taxon)])
+            c = frozenset()
+            for x in ch:
+                c = c | rec(x)
+            clusters.append(c)
+            return c
+
+        leaves = rec(tree.seed_node)
+        L = leaves if restrict is None else (leaves & restrict)
+        splits = set()
+        for c in clusters:
+            c = c & L
+            o = L - c
+            if len(c) >= 2 and len(o) >= 2:
+                splits.add(frozenset([c, o]))
+        return leaves, frozenset(splits)
+
+    def ta_usable(self, leaves):
+        return len(leaves) >= 2 and all(t is not None for t in leaves) and len(set(id(t) for t in leaves)) == len(leaves)
+
+    def verify_array(self, A):
+        """Closure through the public restore route: every restored tree is bound to the array's namespace, all its leaf
+        taxa are members of that namespace, it holds all taxa of the tree that was added and - restricted to them - the
+        same unrooted topology."""
+        V = self.V
+        V(A.ta.taxon_namespace is A.ns and len(A.ta) == len(A.trees), "tree_array_state",
+          lambda: "%d trees in the array, model %d" % (len(A.ta), len(A.trees)))
+        members = set(id(t) for t in A.ns)
+        for i, (L, topo) in enumerate(A.trees):
+            rt = self.lib(A.ta.restore_tree, i)
+            V(rt.taxon_namespace is A.ns, "member_namespace_identity", "tree restored from a TreeArray carries another namespace")
+            V(all(nd.taxon is not None for nd in rt.leaf_node_iter()), "tree_array_restored_leaf_without_taxon")
+            got_leaves, got = self.topology(rt, restrict=L)
+            V(got_leaves <= members, "taxon_not_in_namespace", "leaf taxon of a tree restored from a TreeArray is not in its namespace")
+            labels = dict((id(t), t.label) for t in A.ns)
+            V(L <= got_leaves, "tree_array_restored_tree_lost_taxa",
+              lambda: "tree %d was added with taxa %r, restored with %r" % (i, sorted(labels.get(x, "?") for x in L),
+                                                                            sorted(labels.get(x, "?") for x in got_leaves)))
+            V(got == topo, "tree_array_restored_topology_differs",
+              lambda: "tree %d: splits added %r, splits restored (restricted to its taxa) %r" % (
+                  i, sorted(sorted(sorted(labels.get(x, "?") for x in side) for side in sp) for sp in topo),
+                  sorted(sorted(sorted(labels.get(x, "?") for x in side) for side in sp) for sp in got)))
+        self.ctx.cls("tree_array_restore_checked_trees", len(A.trees))
+
+    def op_ta_new(self, a):
+        if len(self.tas) >= 4:
+            return self.skip("full")
+        ns = self.pick_ns(a["ns"])
+        self.tas.append(ARec(self.d.TreeArray(taxon_namespace=ns), ns))
+
     def op_ta_add(self, a):
+        A = self.pick_ta(a["ta"])
         if a["loose"] and self.loose:
             rec = self.loose[a["t"] % len(self.loose)]
         else:
@@ -1099,16 +1177,17 @@ class Interp(object):
                 return self.skip("empty")
             rec = L.members[a["i"] % len(L.members)]
         leaves = [nd.taxon for nd in rec.tree.leaf_node_iter()]
-        if rec.ns is not self.ta_ns:
+        if rec.ns is not A.ns:
             return self.expect_error(self.err.TaxonNamespaceIdentityError, "TreeArray.add_tree(tree of another namespace)",
-                                     self.ta.add_tree, rec.tree)
-        if len(leaves) < 2 or any(t is None for t in leaves) or self.ta_len >= 12:
+                                     A.ta.add_tree, rec.tree)
+        if not self.ta_usable(leaves) or len(A.trees) >= 10:
             return self.skip("shape")
-        pre = list(self.ta_ns)
-        self.lib(self.ta.add_tree, rec.tree)
-        self.ta_len += 1
-        self.check_mapping([], self.ta_ns, pre, "identity")
+        pre = list(A.ns)
+        self.lib(A.ta.add_tree, rec.tree)
+        self.check_mapping([], A.ns, pre, "identity")
         self.after_encoding(rec, leaves)
+        A.trees.append(self.topology(rec.tree))
+        self.verify_array(A)
         self.ctx.cls("ta_add:ok")
 
     def after_encoding(self, rec, leaves):
@@ -1125,35 +1204,121 @@ class Interp(object):
                lambda: "leaf set mask %s decodes to %r, leaves are %r" % (bin(mask), [t.label for t in rec.ns.bitmask_taxa_list(mask)],
                                                                       [t.label for t in leaves]))
 
-    def op_ta_read(self, a):
-        if self.ta_len >= 12:
-            return self.skip("full")
-        doc = expand_doc(a["doc"])
-        ns = self.ta_ns
+    def ta_read_into(self, A, doc):
+        """TreeArray.read of a generated text; the expected trees come from reading the same text as a TreeList under the
+        same namespace (second library route) and our own split computation."""
+        ns = A.ns
         labels = self.doc_labels(doc, keyfn(ns))
         want = self.doc_trees(doc, labels)
         text = self.trees_text(doc, want, doc["schema"])
         pre = list(ns)
-        n = self.lib(self.ta.read, data=text, **self.read_kwargs(ns, doc["schema"]))
+        kw = self.read_kwargs(ns, doc["schema"])
+        n = self.lib(A.ta.read, data=text, **kw)
         self.V(n == len(want), "read_tree_count", lambda: "TreeArray.read() returned %r for %d trees" % (n, len(want)))
-        self.ta_len += len(want)
         used = [x for w in want for x in w]
         self.check_mapping([], ns, pre, "unify", universe=used, allow_extra=True, must_have=used)
+        ref = self.lib(self.d.TreeList.get, data=text, taxon_namespace=ns, **kw)
+        self.V(len(ref) == len(want), "read_tree_count", "reference TreeList read")
+        for t, leaves in zip(ref, want):
+            got = [nd.taxon for nd in t.leaf_node_iter()]
+            K = keyfn(ns)
+            self.V([K(x.label) for x in got] == [K(x) for x in leaves], "read_leaf_count", "reference TreeList read")
+            A.trees.append(self.topology(t))
+        self.check_mapping([], ns, list(ns), "identity")
+
+    def op_ta_read(self, a):
+        A = self.pick_ta(a["ta"])
+        if len(A.trees) >= 10:
+            return self.skip("full")
+        self.ta_read_into(A, expand_doc(a["doc"]))
+        self.verify_array(A)
 
     def op_ta_rebuild(self, a):
         L = self.pick_list(a["tl"])
-        ok = [m for m in L.members if len([1 for nd in m.tree.leaf_node_iter()]) >= 2
-              and all(nd.taxon is not None for nd in m.tree.leaf_node_iter())]
-        if len(ok) != len(L.members):
+        leaves = [[nd.taxon for nd in m.tree.leaf_node_iter()] for m in L.members]
+        if not all(self.ta_usable(lv) for lv in leaves):
             return self.skip("shape")
         pre = list(L.ns)
-        leaves = [[nd.taxon for nd in m.tree.leaf_node_iter()] for m in L.members]
-        self.ta = self.lib(self.d.TreeArray.from_tree_list, L.tl)
-        self.ta_ns = L.ns
-        self.ta_len = len(L.members)
+        ta = self.lib(self.d.TreeArray.from_tree_list, L.tl)
         self.check_mapping([], L.ns, pre, "identity")
         for m, lv in zip(L.members, leaves):
             self.after_encoding(m, lv)
+        A = ARec(ta, L.ns, [self.topology(m.tree) for m in L.members])
+        k = a["ta"] % (len(self.tas) + 1)
+        if k < len(self.tas):
+            self.tas[k] = A
+        elif len(self.tas) < 4:
+            self.tas.append(A)
+        else:
+            self.tas[0] = A
+        self.verify_array(A)
+
+    def op_ta_merge(self, a):
+        """update / extend / += / + between tree arrays.  Same namespace: the operand's trees are appended (or a new array
+        holds both).  Foreign namespace (non-empty operand): extend / += / + must refuse - whether the receiver already
+        holds trees or not - because split bitmasks only mean something under the namespace they were made for; update()
+        has no documented behaviour for that case and is only generated with same-namespace operands."""
+        R = self.pick_ta(a["a"])
+        how = a["how"]
+        others = [x for x in self.tas if x is not R]
+        if a["same"]:
+            cands = [x for x in others if x.ns is R.ns]
+            if cands:
+                O = cands[a["b"] % len(cands)]
+            else:
+                O = ARec(self.d.TreeArray(taxon_namespace=R.ns), R.ns)
+                if a["b"] % 4:
+                    self.ta_read_into(O, expand_doc(a["doc"]))
+        else:
+            cands = [x for x in others if x.ns is not R.ns and x.trees]
+            if cands:
+                O = cands[a["b"] % len(cands)]
+            else:
+                fns = [x for x in self.pool_ns if x is not R.ns][a["ns"] % 2]
+                O = ARec(self.d.TreeArray(taxon_namespace=fns), fns)
+                self.ta_read_into(O, expand_doc(a["doc"]))
+                if len(self.tas) < 4:
+                    self.tas.append(O)
+            if how == "update":
+                how = "extend"
+        state = "empty" if not R.trees else "nonempty"
+        if len(R.trees) + len(O.trees) > 14:
+            return self.skip("full")
+        Ident = self.err.TaxonNamespaceIdentityError
+        if O.ns is not R.ns:
+            fn = {"extend": R.ta.extend, "iadd": R.ta.__iadd__, "add": R.ta.__add__}[how]
+            try:
+                res = self.lib(fn, O.ta, _allowed=(AssertionError, Ident))
+            except (AssertionError, Ident):
+                self.ctx.cls("ta_merge:foreign_refused:%s:receiver_%s" % (how, state))
+                self.verify_array(R)
+                self.verify_array(O)
+                return
+            self.V(False, "tree_array_accepted_foreign_namespace_array",
+                   "%s of a non-empty TreeArray of another namespace into a%s TreeArray was not refused (now %d trees)" % (
+                       how, "n empty" if state == "empty" else " non-empty", len(res) if res is not None else -1))
+        fn = {"update": R.ta.update, "extend": R.ta.extend, "iadd": R.ta.__iadd__, "add": R.ta.__add__}[how]
+        pre = list(R.ns)
+        res = self.lib(fn, O.ta)
+        self.check_mapping([], R.ns, pre, "identity")
+        if how == "add":
+            self.V(isinstance(res, self.d.TreeArray) and res is not R.ta and res is not O.ta and res.taxon_namespace is R.ns,
+                   "add_result_namespace", "a + b must be a new TreeArray under a's namespace")
+            N = ARec(res, R.ns, R.trees + O.trees)
+            self.verify_array(N)
+            if len(self.tas) < 4:
+                self.tas.append(N)
+            elif not any(O is x for x in self.tas):
+                pass
+            else:
+                self.tas[[i for i, x in enumerate(self.tas) if x is O][0]] = N
+        else:
+            if how in ("extend", "iadd"):
+                self.V(res is R.ta, "extend_returns_self")
+            R.trees = R.trees + O.trees
+        self.verify_array(R)
+        self.verify_array(O)
+        self.ctx.cls("ta_merge:same_namespace:%s:receiver_%s:operand_%s" % (how, state, "empty" if not O.trees else "nonempty"))
 
     # -- DataSet -------------------------------------------------------------------------------------
     def ds_room(self):
